@@ -113,6 +113,7 @@ func Gen(run *vlib.Run, seed uint64, tier string) {
 	gen4(run, r.Fork("f4"), tier)
 	genSmall(run, r.Fork("f0f6"), tier)
 	genTable(run, r.Fork("table"), tier)
+	genLk4(run, r.Fork("lk4"), tier)
 	genGetSub(run, r.Fork("getsub"), tier)
 }
 
